@@ -5,6 +5,9 @@ HERE = os.path.dirname(os.path.dirname(os.path.abspath(__file__)))
 ALL = ["C%02d" % i for i in range(1, 21)]
 HYD_NOTE = "Trusted: TLC; Dec.tla exact decimal arithmetic (self-tested by setup); recorded floats are logged at their shortest round-trip decimal; tolerances derived from the solver criterion max|residual| < 1e-6 with factor 2; non-converged runs are counted, not asserted."
 CLAIMED = {
+ "C19": dict(cat="model_checking", tech="TLA+ contracts of split/break/skeletonize over recorded before/after projections (Morph.tla, exact rational geometry) decided by TLC; split hydraulics compared by TLC (Agree.tla)",
+   text="Morph.tla computes, from the pipe before the operation and the parameters, the lengths of both halves, the elevation (reservoir rule) and the coordinates of the new junction along the polyline in exact rationals, and states connectivity, attribute inheritance, no check valve on the new pipe, every other element unchanged, input untouched; TLC checks it on a grid of fractions {0,1/4,1/3,1/2,1} x either end x vertices x CV/closed/minor loss x end node types, and compares the simulated rows of the rest of the network before/after a split. For skeletonize on random networks TLC checks retention of tanks/reservoirs/pumps/valves/control elements, equality of total demand at every pattern time and that the map partitions the original nodes over the retained ones.",
+   note="Trusted: TLC, Dec.tla. Polylines are axis-parallel with integer coordinates. Known finding (open): split duplicates the minor loss (documented behaviour) and therefore changes hydraulics.", ref="DESIGN.md section 5 C19"),
  "C13": dict(cat="translation_validation", tech="translation validation: to_dict -> JSON -> from_dict -> to_dict on random API-built models; structural equality of canonicalised dictionaries decided by TLC (Same.tla)",
    text="Each subject is a random feature-rich model (vertices on links of every type, tags, initial quality, several demands per junction, curves, a source, leaks, controls, a rule with AND/OR, ELSE and priority). Three round trips per subject (JSON text, in-memory dictionary, append to an empty model); TLC compares the canonical dictionaries (floats by repr) after exactly the normalisation the property names.",
    note="Trusted: TLC; the canonicaliser (floats by repr, tuples as lists).", ref="DESIGN.md section 5 C13"),
